@@ -38,9 +38,171 @@ pub fn generate(tier: &str, rng: &mut Rng) -> Vec<String> {
         }
         out.push(c.line());
     }
+    out.extend(gen_limits(tier, rng));
     out
 }
 
 pub fn execute(case: &str) -> String {
-    crate::framing::execute(case)
+    let t: Vec<&str> = case.split(' ').collect();
+    match t[0] {
+        "lim.srv" => exec_lim_srv(&t),
+        "lim.cli" => exec_lim_cli(&t),
+        _ => crate::framing::execute(case),
+    }
+}
+
+// ===== limits as they travel from the Grpc configuration down to the codec =====
+//   lim.srv <b|a> <enc limit|-> <dec limit|-> <request len> <response len>
+//        b = builder methods, a = apply_max_message_size_config
+//        observed: <grpc-status code> h<handler runs>
+//   lim.cli <f|c> <enc limit|-> <dec limit|-> <request len> <response len>
+//        f = fresh client, c = a clone of the configured client
+//        observed: ok | err<code>, s<requests whose body the transport read completely>
+use crate::c03::{drain_body, RawCodec};
+use bytes::Bytes;
+use http_body::Frame;
+use std::future::Future;
+use std::pin::Pin;
+use std::sync::atomic::{AtomicUsize, Ordering};
+use std::sync::Arc;
+use std::task::{Context, Poll};
+use tonic::{Request, Response, Status};
+
+fn opt(s: &str) -> Option<usize> {
+    if s == "-" {
+        None
+    } else {
+        Some(s.parse().unwrap())
+    }
+}
+
+fn blob(n: usize) -> Vec<u8> {
+    (0..n).map(|i| (i % 251) as u8 | 1).collect()
+}
+
+#[derive(Clone)]
+struct Reply(usize, Arc<AtomicUsize>);
+impl tonic::server::UnaryService<Vec<u8>> for Reply {
+    type Response = Vec<u8>;
+    type Future = Pin<Box<dyn Future<Output = Result<Response<Vec<u8>>, Status>> + Send>>;
+    fn call(&mut self, _req: Request<Vec<u8>>) -> Self::Future {
+        self.1.fetch_add(1, Ordering::SeqCst);
+        let n = self.0;
+        Box::pin(async move { Ok(Response::new(blob(n))) })
+    }
+}
+
+fn exec_lim_srv(t: &[&str]) -> String {
+    let rt = paused_rt();
+    rt.block_on(async move {
+        let (e, d) = (opt(t[2]), opt(t[3]));
+        let mut grpc = tonic::server::Grpc::new(RawCodec);
+        if t[1] == "a" {
+            grpc = grpc.apply_max_message_size_config(d, e);
+        } else {
+            if let Some(l) = d {
+                grpc = grpc.max_decoding_message_size(l);
+            }
+            if let Some(l) = e {
+                grpc = grpc.max_encoding_message_size(l);
+            }
+        }
+        let runs = Arc::new(AtomicUsize::new(0));
+        let body = frame(0, &blob(t[4].parse().unwrap()));
+        let mut req = http::Request::new(tonic::body::Body::new(http_body_util::Full::new(Bytes::from(body))));
+        *req.method_mut() = http::Method::POST;
+        let resp = grpc.unary(Reply(t[5].parse().unwrap(), runs.clone()), req).await;
+        let (parts, body) = resp.into_parts();
+        let (frames, _) = drain_body(body).await;
+        let code = parts
+            .headers
+            .get("grpc-status")
+            .map(|v| String::from_utf8_lossy(v.as_bytes()).to_string())
+            .or_else(|| frames.iter().find(|f| f.starts_with('t')).map(|f| f[1..].to_string()))
+            .unwrap_or_else(|| "-".into());
+        format!("{} h{}", code, runs.load(Ordering::SeqCst))
+    })
+}
+
+#[derive(Clone)]
+struct Echo(usize, Arc<AtomicUsize>);
+impl tower::Service<http::Request<tonic::body::Body>> for Echo {
+    type Response = http::Response<tonic::body::Body>;
+    type Error = Status;
+    type Future = Pin<Box<dyn Future<Output = Result<Self::Response, Status>> + Send>>;
+    fn poll_ready(&mut self, _cx: &mut Context<'_>) -> Poll<Result<(), Status>> {
+        Poll::Ready(Ok(()))
+    }
+    fn call(&mut self, req: http::Request<tonic::body::Body>) -> Self::Future {
+        let n = self.0;
+        let sent = self.1.clone();
+        Box::pin(async move {
+            use http_body_util::BodyExt;
+            let mut body = req.into_body();
+            while let Some(f) = body.frame().await {
+                // a failing request body aborts the call, as a real transport would
+                f?;
+            }
+            sent.fetch_add(1, Ordering::SeqCst);
+            let mut tr = http::HeaderMap::new();
+            tr.insert("grpc-status", "0".parse().unwrap());
+            let frames: Vec<Result<Frame<Bytes>, Status>> = vec![Ok(Frame::data(Bytes::from(frame(0, &blob(n))))), Ok(Frame::trailers(tr))];
+            let mut resp = http::Response::new(tonic::body::Body::new(http_body_util::StreamBody::new(tokio_stream::iter(frames))));
+            resp.headers_mut().insert("content-type", "application/grpc".parse().unwrap());
+            Ok(resp)
+        })
+    }
+}
+
+fn exec_lim_cli(t: &[&str]) -> String {
+    let rt = paused_rt();
+    rt.block_on(async move {
+        let (e, d) = (opt(t[2]), opt(t[3]));
+        let sent = Arc::new(AtomicUsize::new(0));
+        let mut grpc = tonic::client::Grpc::new(Echo(t[5].parse().unwrap(), sent.clone()));
+        if let Some(l) = d {
+            grpc = grpc.max_decoding_message_size(l);
+        }
+        if let Some(l) = e {
+            grpc = grpc.max_encoding_message_size(l);
+        }
+        let mut grpc = if t[1] == "c" { grpc.clone() } else { grpc };
+        grpc.ready().await.unwrap();
+        let r = grpc.unary(Request::new(blob(t[4].parse().unwrap())), "/p.S/M".parse().unwrap(), RawCodec).await;
+        format!("{} s{}", match r { Ok(_) => "ok".to_string(), Err(st) => format!("err{}", st.code() as i32) }, sent.load(Ordering::SeqCst))
+    })
+}
+
+pub fn gen_limits(tier: &str, rng: &mut Rng) -> Vec<String> {
+    let mut out = Vec::new();
+    let lims: Vec<Option<usize>> = vec![None, Some(0), Some(1), Some(5), Some(1024)];
+    for side in ["lim.srv", "lim.cli"] {
+        for mode in if side == "lim.srv" { ["b", "a"] } else { ["f", "c"] } {
+            for e in &lims {
+                for d in &lims {
+                    let mut lens = vec![0usize, 1, 6];
+                    for l in [e, d].into_iter().flatten() {
+                        for x in [l.saturating_sub(1), *l, l + 1] {
+                            lens.push(x);
+                        }
+                    }
+                    lens.sort();
+                    lens.dedup();
+                    for rq in &lens {
+                        for rs in &lens {
+                            if rng.chance(1, 3) || (*rq <= 6 && *rs <= 6) {
+                                out.push(format!("{} {} {} {} {} {}", side, mode, e.map(|x| x.to_string()).unwrap_or("-".into()), d.map(|x| x.to_string()).unwrap_or("-".into()), rq, rs));
+                            }
+                        }
+                    }
+                }
+            }
+            // the 4 MiB default, exactly at and just over it
+            for (rq, rs) in [(4 * 1024 * 1024, 1), (4 * 1024 * 1024 + 1, 1), (1, 4 * 1024 * 1024), (1, 4 * 1024 * 1024 + 1)] {
+                out.push(format!("{} {} - - {} {}", side, mode, rq, rs));
+            }
+        }
+    }
+    let _ = tier;
+    out
 }
